@@ -1162,7 +1162,12 @@ def native_program(cfg, seed=1, tol=1e-6, compare_with=None, unrelated=False):
             if isinstance(spec, str): return {'match': 'VNACAL_MATCH', 'zero': 'VNACAL_ZERO', 'open': 'VNACAL_OPEN', 'one': 'VNACAL_ONE', 'short': 'VNACAL_SHORT'}[spec]
             if spec not in handles:
                 nm = 'p%s_%s' % (tagc, spec[1]); handles[spec] = nm
-                body.append('    int %s = vnacal_make_scalar_parameter(vcp, %s); CHECK(%s);' % (nm, cnum(val(spec, None)), nm))
+                if spec[0] == 'unk':
+                    g_ = val(spec, None) + cconst(Fraction(1, 64), Fraction(-1, 128))
+                    body.append('    int %s_guess = vnacal_make_scalar_parameter(vcp, %s); CHECK(%s_guess);' % (nm, cnum(g_), nm))
+                    body.append('    int %s = vnacal_make_unknown_parameter(vcp, %s_guess); CHECK(%s);' % (nm, nm, nm))
+                else:
+                    body.append('    int %s = vnacal_make_scalar_parameter(vcp, %s); CHECK(%s);' % (nm, cnum(val(spec, None)), nm))
             return handles[spec]
         for k, st in enumerate(cf_.stds):
             sm = std_model(cf_, st, k, val)
